@@ -783,7 +783,10 @@ pub fn gen_building(rng: &mut Rng, cfg: &BuildCfg) -> ABuilding {
             // own-polygon element in canonical position (first edge on the x axis)
             if cfg.own_polygon_walls && rng.chance(0.4) {
                 let (pw, ph) = (rng.dec(1.0, 8.0, 2) as f32, rng.dec(1.0, 6.0, 2) as f32);
-                let poly = if rng.chance(0.7) { vec![(0.0, 0.0), (pw, 0.0), (pw, ph), (0.0, ph)] } else { vec![(0.0, 0.0), (pw, 0.0), (pw * 0.5, ph)] };
+                // rectangle, triangle, or a trapezoid that is wider at the top (its outline reaches left of the first vertex)
+                let shape = rng.usize(10);
+                let poly = if shape < 5 { vec![(0.0, 0.0), (pw, 0.0), (pw, ph), (0.0, ph)] } else if shape < 7 { vec![(0.0, 0.0), (pw, 0.0), (pw * 0.5, ph)] } else { vec![(0.0, 0.0), (pw, 0.0), (pw + 1.5, ph), (-1.5, ph)] };
+                let trapezoid = shape >= 7;
                 let tilt = *rng.pick(&[0.0f32, 180.0, 90.0, 30.0, 45.0]);
                 sp.walls.push(AWall {
                     name: format!("{}_POL", name),
@@ -795,6 +798,25 @@ pub fn gen_building(rng: &mut Rng, cfg: &BuildCfg) -> ABuilding {
                     loc: WallLoc::Poly { x: rng.dec(-5.0, 5.0, 2) as f32, y: rng.dec(-5.0, 5.0, 2) as f32, z: if tilt < 60.0 { h } else { rng.dec(0.0, 1.0, 2) as f32 }, azimuth: *rng.pick(&[0.0f32, 90.0, 180.0, 270.0, 37.0]), tilt, polygon: poly, location_top: tilt < 60.0 && rng.chance(0.4) },
                     windows: vec![],
                 });
+                // a window on a vertical element placed by its own (canonical) polygon; on the trapezoid it sits in the part
+                // that lies left of the first vertex, so its X offset is negative
+                if tilt == 90.0 && shape != 5 && shape != 6 && ph >= 1.6 && pw >= 1.6 && rng.chance(0.6) {
+                    let wall = sp.walls.last_mut().unwrap();
+                    let (wy, wh, ww) = (r2(ph as f64 * 0.55), r2(ph as f64 * 0.3), 0.8f32);
+                    let wx = if trapezoid { r2(-1.5 * (wy as f64 / ph as f64) + 0.15) } else { r2(rng.dec(0.1, (pw - ww - 0.1).max(0.11) as f64, 2)) };
+                    wall.windows.push(AWindow {
+                        name: format!("{}_V", wall.name),
+                        gap: gap_names[rng.usize(gap_names.len())].clone(),
+                        x: wx,
+                        y: wy,
+                        w: ww,
+                        h: wh,
+                        setback: if rng.chance(0.5) { 0.2 } else { 0.0 },
+                        overhang: None,
+                        left_fin: None,
+                        right_fin: None,
+                    });
+                }
             }
             all_space_names.push(name);
             fl.spaces.push(sp);
@@ -930,7 +952,14 @@ pub fn gen_building(rng: &mut Rng, cfg: &BuildCfg) -> ABuilding {
         ventilation: rng.dec(10.0, 200.0, 2) as f32,
         n50_test: if rng.chance(0.3) { Some(rng.dec(0.5, 9.0, 2) as f32) } else { None },
         // a project may have no name at all
-        name: if rng.chance(0.08) { String::new() } else { format!("Proyecto {}", rng.below(100_000)) },
+        // ... or a long one with accents and signs at any byte offset
+        name: match rng.usize(12) {
+            0 => String::new(),
+            // (two- and three-byte characters back to back: wherever a tool cuts the text, some of these names have a
+            // character straddling the cut)
+            1..=4 => format!("{}Rehabilitación ñáéíóúüÑÁÉÍÓÚ – nº {} ñáéíóúüÑÁÉÍÓÚçÇ€ de edificio plurifamiliar en Ávila (ampliación)", "a".repeat(rng.usize(4)), rng.below(100)),
+            _ => format!("Proyecto {}", rng.below(100_000)),
+        },
         omit,
     }
 }
